@@ -12,6 +12,7 @@ From RV Require Import Model.Nack.
 From RV Require Import Proofs.NackProofs.
 From RV Require Import Model.Rtcp.
 From RV Require Import Proofs.RtcpProofs.
+From RV Require Import Proofs.RtcpTotal.
 Import ListNotations.
 Open Scope Z_scope.
 
@@ -276,3 +277,8 @@ Theorem C15_rtcp_example :
   forallb valid example_compound = true /\
   exists bs, marshal_rtcp example_compound = Ok bs /\ parse_rtcp bs = Ok (map canon example_compound).
 Proof. exact example_compound_ok. Qed.
+
+(* parse_rtcp_packets never panics, on any byte string (every sub-parser, the compound walk, padding handling;
+   fuel exhaustion counts as Panic, so this includes termination) *)
+Theorem C15_rtcp_parse_total : forall raw, bytes raw -> parse_rtcp raw <> Panic.
+Proof. exact parse_rtcp_total. Qed.
